@@ -63,9 +63,27 @@ class Ctx:
         self.vcount[key] += 1
         if self.vcount[key] <= 5:
             self.violations.append({"key": key, "msg": str(msg)[:2000], "case": case})
+        if _FAILFAST and not self.replaying and (self.prop, key) not in _known():
+            # diagnostic mode of the seed/mutant tools: the first unlisted violation ends the shard (the verdict is already decided)
+            raise FailFast(key)
 
     def elapsed(self):
         return time.monotonic() - self.t0
+
+
+class FailFast(BaseException):
+    pass
+
+
+_FAILFAST = bool(os.environ.get("VERIF_FAILFAST"))
+_known_cache = []
+
+
+def _known():
+    if not _known_cache:
+        from vf.core import load_known
+        _known_cache.append(load_known())
+    return _known_cache[0]
 
 
 def fork_ctx(ctx):
@@ -122,6 +140,8 @@ def main():
             mod.replay(ctx, body["case"])
         else:
             mod.run(ctx)
+    except FailFast:
+        ctx.info["failfast"] = True
     except BaseException:
         traceback.print_exc()
         sys.exit(4)
